@@ -97,6 +97,11 @@ def render_cond(scn, pkg):
         lines.append("BASE_OPTIONS.update(%s)" % py_lit(d0["inc"]["opts_extra"]))
         if d0["inc"]["deps"]:
             lines.append("SHARED_DEPS += %s" % py_lit([":" + split_tid(x)[1] for x in d0["deps"]]))
+    wrapped = scn.get("wrap_pkg") == pkg
+    if wrapped:
+        lines.append("_orig_exp, _orig_cmd = run_experiment, run_command")
+        lines.append("def run_experiment(**kw):\n    kw.setdefault('parallelizable', True)\n    return _orig_exp(**kw)")
+        lines.append("def run_command(**kw):\n    kw.setdefault('parallelizable', True)\n    return _orig_cmd(**kw)")
     for t, d in scn["tasks"].items():
         p, name = split_tid(t)
         if p != pkg:
@@ -126,7 +131,7 @@ def render_cond(scn, pkg):
         if k in ("exp", "cmd"):
             fn = "run_experiment" if k == "exp" else "run_command"
             parts = ["name=%r" % name, "run=%r" % ("sim " + t)]
-            if d.get("par"):
+            if d.get("par") and not wrapped:
                 parts.append("parallelizable=True")
             if d.get("args"):
                 parts.append("args=%s" % py_lit(d["args"]))
@@ -378,6 +383,10 @@ def simple_script(r, task, kind, fail=None, files=True, out=False):
     sc = {"steps": steps, "end": ["exit", 0]}
     if fail is not None:
         sc.update(fail)
+    if out and r.random() < 0.12 and not sc.get("launch"):
+        st_ = r.choice(["out", "err"])
+        sc["bg"] = {"stream": st_, "steps": [[st_, {"k": "txt", "n": r.choice([5, 300]), "seed": r.randrange(1 << 30)}]
+                                              for _ in range(r.randint(1, 2))]}
     return sc
 
 
